@@ -104,7 +104,8 @@ def gen_reads(rng, world, n):
                 # this read carries the variant (possibly only part of an MNP)
                 part = len(v["alt"]) if rng.random() < 0.8 else rng.randint(1, len(v["alt"]))
                 for j in range(part):
-                    alt_at[v["g"] + j] = v["alt"][j]
+                    if v["alt"][j] != ".":  # (a gapped substitution leaves that base alone)
+                        alt_at[v["g"] + j] = v["alt"][j]
         for op, k in ops:
             if op == "M":
                 for j in range(k):
@@ -158,7 +159,7 @@ def gen_reads(rng, world, n):
             if v["kind"] == "mnp":
                 for p_ in range(start_, end_ + 1):
                     k_ = p_ - g_
-                    seq_.append(v["alt"][k_] if carries and 0 <= k_ < len(v["alt"]) else contig[p_])
+                    seq_.append(v["alt"][k_] if carries and 0 <= k_ < len(v["alt"]) and v["alt"][k_] != "." else contig[p_])
                 cig_ = [["M", end_ - start_ + 1]]
             else:
                 if carries and start_ <= g_ < end_:
@@ -248,6 +249,9 @@ def gen_plan(rng, tier, i, seed):
     if rng.random() < 0.4:
         # multi-nucleotide substitutions that are silent variants of a sub-allele (catalogued all the same)
         extra["silent_mnp"] = True
+    if rng.random() < 0.4:
+        # three-base substitutions whose middle base is not part of them (G.G>A.C)
+        extra["gapped_mnp"] = True
     world = WL.one_gene_world(rng, small=True, kinds=kinds, n_variants=rng.choice([5, 7]), lfusion=False,
                               rfusion=False, **extra)
     reads = gen_reads(rng, world, rng.randint(*cfg["nreads"]))
